@@ -254,7 +254,7 @@ def _matches(item, elem):
     if not h.startswith(e):
         return False
     rest = h[len(e):]
-    if rest and (rest[0].isalnum() or rest[0] == '_') and (e[-1].isalnum() or e[-1] == '_'):
+    if rest and (rest[0].isalnum() or rest[0] == '_') and (e[-1].isalnum() or e[-1] == '_') and not re.match(r'where(\W|$)', rest):
         return False
     return True
 
